@@ -534,6 +534,43 @@ func TestVerifC16Probes(t *testing.T) {
 			env.stop(5 * time.Second)
 		}
 	}
+	{ // a backend panic inside the Renamed notification of a fid below a renamed directory must not leave childMu locked
+		fs := vhgNewFS()
+		vh16Seed(fs, 1)
+		fs.add("/c0/sub/f", ModeRegular|0o644, "x")
+		fs.dirMove = true
+		env, err := vhgStart(fs, 1)
+		if err != nil {
+			t.Fatal(err)
+		}
+		root, _ := env.clients[0].Attach("")
+		_, dir, err1 := root.Walk([]string{"c0"})
+		_, below, err2 := root.Walk([]string{"c0", "sub", "f"})
+		if err1 != nil || err2 != nil {
+			t.Fatal(err1, err2)
+		}
+		fs.mu.Lock()
+		fs.panicOn = &vhgGate{method: "Renamed", path: "/c0/sub/f"}
+		fs.mu.Unlock()
+		rerr := dir.RenameAt("sub", dir, "sub2")
+		ok := vh16Probe(func() { below.Close() })
+		unclosed := -1
+		if ok {
+			// after the connection is gone every File the backend handed out must have been closed
+			env.stop(5 * time.Second)
+			closed := map[int]bool{}
+			for _, e := range fs.snapshot() {
+				if e.Enter && e.Method == "Close" {
+					closed[e.Handle] = true
+				}
+			}
+			fs.mu.Lock()
+			unclosed = fs.nextH - len(closed)
+			fs.mu.Unlock()
+		}
+		out.Emit(map[string]interface{}{"kind": "probe", "name": "panic-in-renamed-notification", "answered": ok, "rename_errno": vh16Errno(rerr), "unclosed": unclosed,
+			"what": "backend panics in Renamed of a fid below a renamed directory (Trenameat sub->sub2 in /c0); then Tclunk of that fid, then disconnect"})
+	}
 	// File lifecycle under rename: the Close of a clunked fid is parked in the backend while a rename
 	// touches its entry (file rename) / its directory (directory rename); the monitor log is checked.
 	for _, dirRename := range []bool{false, true} {
